@@ -318,6 +318,8 @@ class Rule(NamedBox):
         self.is_name = bool(self.is_name) or 'name' in self.decorators
         # pyrefly: ignore [unnecessary-type-conversion]
         self.is_name = bool(self.is_name) or 'isname' in self.decorators
+        self.no_memo = bool(self.no_memo) or 'nomemo' in self.decorators
+        self.no_stak = bool(self.no_stak) or 'nostak' in self.decorators
 
         if not self.kwparams:
             self.kwparams = {}
